@@ -868,16 +868,13 @@ impl ProxyServer {
 
         // sign the request
         // Add header x-ms-azure-host-authorization
-        if let (Some(key), Some(key_guid)) = (
-            self.key_keeper_shared_state
-                .get_current_key_value()
-                .await
-                .unwrap_or(None),
-            self.key_keeper_shared_state
-                .get_current_key_guid()
-                .await
-                .unwrap_or(None),
-        ) {
+        // read the key guid and the key value together, they must belong to the same key
+        if let Some((key_guid, key)) = self
+            .key_keeper_shared_state
+            .get_current_key_guid_and_value()
+            .await
+            .unwrap_or(None)
+        {
             let input_to_sign = hyper_client::as_sig_input(head, whole_body);
             match helpers::compute_signature(&key, input_to_sign.as_slice()) {
                 Ok(sig) => {
